@@ -54,6 +54,19 @@ def roundtrip_failure(opt, row, v):
 
 
 # ------------------------------------------------------------------ optcodec
+def all_drm_selections():
+    """the finite sub-domain, exhaustively: each of the three systems absent or present with one of the
+    seven non-empty location subsets (8^3 = 512 selections)"""
+    import itertools
+    from dashlive.drm.location import DrmLocation
+    locs = list(DrmLocation.all())
+    subsets = [None] + [set(c) for n in (1, 2, 3) for c in itertools.combinations(locs, n)]
+    out = []
+    for combo in itertools.product(subsets, repeat=3):
+        out.append([(name, s) for name, s in zip(("clearkey", "marlin", "playready"), combo) if s is not None])
+    return out
+
+
 def run_optcodec(ctx, ch: Channel, only: set | None = None):
     rows, opts, _ = L.registry()
     rng = ctx.rng("optcodec")
@@ -74,8 +87,10 @@ def run_optcodec(ctx, ch: Channel, only: set | None = None):
         for t in texts:
             lines.append(f"optfrom {kspec} {L.hx(t)}")
             meta.append(("from", i, t))
-        for _ in range(n_to):
-            v = L.gen_value(kspec, rng)
+        values = [L.gen_value(kspec, rng) for _ in range(n_to)]
+        if kbase == "drmSelection":
+            values += all_drm_selections()      # every subset of systems x every non-empty location subset
+        for v in values:
             spec = L.spec_of_value(kspec, v)
             if spec.startswith("?"):
                 ch.errors.append(f"generator produced an unencodable value for {row['cgi']}: {spec}")
